@@ -32,13 +32,15 @@ class ActionScheduler(Asset):
         for entry in schedule:
             assert isinstance(entry[0], (int, float))
 
-        super().__init__(name = name)
         self._schedule = schedule.copy()
         self._is_cyclical = is_cyclical
 
         self._schedule_index = 0
         self._state = None
         self._registered_objects = {}
+        # Registers with the System which will initialize the object
+        # immediately if the simulation is already in progress.
+        super().__init__(name = name)
 
     def initialize(self, env):
         super().initialize(env)
